@@ -30,6 +30,8 @@ type BlockCache struct {
 	round         int64
 	hits          int64
 	miss          int64
+	// committed is set once the block's values have been moved to the state cache
+	committed bool
 }
 
 type Block struct {
@@ -87,6 +89,12 @@ func (pcc *BlockCache) Get(key string) (Value, bool) {
 		// logging.Logger.Debug("block cache get - deleted", zap.String("key", key))
 		logging.Logger.Debug("block state cache - deleted", zap.String("block", pcc.blockHash))
 		return nil, false
+	}
+
+	if pcc.committed {
+		// the block's own values live in the state cache under its hash now; going to the previous
+		// block would skip them and return an ancestor's value
+		return pcc.main.Get(key, pcc.blockHash)
 	}
 
 	return pcc.main.Get(key, pcc.prevBlockHash)
